@@ -65,6 +65,23 @@ fn tie_heavy(t: &mut Tape) -> MapSpec {
     let last = spec.objects.last_mut().unwrap();
     last.kind = crate::gen::map::ObjKind::Circle;
     last.time = end;
+    // a quarter of these maps is a *near*-tie at microscopic scale instead: the accumulated durations of
+    // neighbouring beat lengths differ by less than f64::EPSILON while the extremes differ by more, so a
+    // comparison that is not a total order would depend on the order in which the durations are visited
+    if t.chance(1, 4) {
+        let a = t.range(1, 9) as f64;
+        let b = t.range(1, 2) as f64;
+        let mut at = 0.0;
+        for (i, tl) in spec.timing.iter_mut().enumerate() {
+            tl.time = at;
+            at += (a + b * i as f64) * 1e-16;
+        }
+        for o in spec.objects.iter_mut() {
+            o.time = 0.0;
+            o.kind = crate::gen::map::ObjKind::Circle;
+        }
+        spec.objects.last_mut().unwrap().time = at;
+    }
     spec
 }
 
@@ -330,7 +347,7 @@ pub fn property() -> Property {
         id: "C01",
         subchecks: vec![SubCheck {
             name: "history-invariant",
-            rule: "pool of 2-3 maps (map 0 always tie-heavy: >=2 distinct beat lengths with exactly equal accumulated duration, equal start times) x 3 Difficulty specs x 2 score specs x history of 6-40 ops over the public surface (decode via bytes+str (a third of the pools contains a text with a malformed trailing slider line), bpm x16 + fresh decode, convert by value/ref/mut, difficulty, strains, performance, gradual difficulty drain, gradual performance walk, attribute builder). Invariant: whenever an op key recurs (immediately or after ops on other maps) its canonical result is bit-identical to the first; no op modifies a map passed by reference (== against a snapshot after every op). Non-trivial: a recurrence separated by an op on another map, tie-heavy map has >=2 objects and >=2 beat lengths. The driver additionally runs the same seeded histories in two separate processes and compares digests (sub-check cross-process).",
+            rule: "pool of 2-3 maps (map 0 always tie-heavy: >=2 distinct beat lengths with exactly equal accumulated duration, equal start times; a quarter instead near-ties at 1e-16 ms scale) x 3 Difficulty specs x 2 score specs x history of 6-40 ops over the public surface (decode via bytes+str (a third of the pools contains a text with a malformed trailing slider line), bpm x16 + fresh decode, convert by value/ref/mut, difficulty, strains, performance, gradual difficulty drain, gradual performance walk, attribute builder). Invariant: whenever an op key recurs (immediately or after ops on other maps) its canonical result is bit-identical to the first; no op modifies a map passed by reference (== against a snapshot after every op). Non-trivial: a recurrence separated by an op on another map, tie-heavy map has >=2 objects and >=2 beat lengths. The driver additionally runs the same seeded histories in two separate processes and compares digests (sub-check cross-process).",
             quick: 8000,
             thorough: 60_000,
             tape_len: 2600,
